@@ -111,7 +111,8 @@ inductive HCall where
   /-- `open_by_handle_at(mount_fd, handle, flags)`; `h` names the file handle (bytes); `mode` is
       the same ghost argument as for `reopen` -/
   | openByHandle (h : Nat) (flags : Nat) (mode : Nat)
-  | nameToHandle (fd : Fd) (flags : Nat)
+  /-- `name_to_handle_at(fd, "", handle, .., flags)`; `size` = `handle_bytes` offered (0 = probe) -/
+  | nameToHandle (fd : Fd) (flags : Nat) (size : Nat)
   | statx (fd : Fd) (name : Name) (flags mask : Nat)
   | fstatat (fd : Fd) (name : Name) (flags : Nat)
   | mkdirat (dir : Fd) (name : Name) (mode : Nat)
@@ -221,6 +222,42 @@ def OnlyCalls (P : HCall → Prop) : Prog α → Prop
 
 end Prog
 
+/-! ### inodes (what a host stores about an object) -/
+
+inductive Kind where
+  | dir | reg | lnk | fifo | chr | blk | sock
+  deriving Repr, DecidableEq, Inhabited
+
+def Kind.ifmt : Kind → Nat
+  | .dir => S_IFDIR | .reg => S_IFREG | .lnk => S_IFLNK | .fifo => S_IFIFO
+  | .chr => S_IFCHR | .blk => S_IFBLK | .sock => S_IFSOCK
+
+def kindOfMode (m : Nat) : Option Kind :=
+  let t := m &&& S_IFMT
+  if t == S_IFREG || t == 0 then some .reg
+  else if t == S_IFIFO then some .fifo
+  else if t == S_IFCHR then some .chr
+  else if t == S_IFBLK then some .blk
+  else if t == S_IFSOCK then some .sock
+  else none
+
+structure Node where
+  kind : Kind
+  perm : Nat
+  uid : Nat
+  gid : Nat
+  /-- file content, or the target of a symbolic link -/
+  data : List UInt8 := []
+  entries : List (Name × Obj) := []
+  /-- ".." of a directory -/
+  parent : Obj := 0
+  nlink : Nat := 1
+  rdev : Nat := 0
+  xattrs : List (List UInt8 × List UInt8) := []
+  atime : Option Nat := none
+  mtime : Option Nat := none
+  deriving Repr, DecidableEq, Inhabited
+
 /-! ### the abstract host -/
 
 structure Creds where
@@ -240,7 +277,7 @@ structure HostOps (σ : Type) where
   /-- the object an open descriptor denotes -/
   fdObj : σ → Fd → Option Obj
   /-- everything stored about an object (type, mode, owner, content, entries, ...) -/
-  view : σ → Obj → Option String
+  view : σ → Obj → Option Node
   /-- the objects outside the exported directory when the file system was imported -/
   sentinel : Obj → Bool
   exportRoot : Obj
@@ -274,6 +311,9 @@ class HostLaws {σ : Type} (H : HostOps σ) : Prop where
   capset_raise : ∀ s, (H.creds s).permFsetid = true → (H.creds s).euid = 0 → (H.step s (.capset true)).1 = .ok
   /-- capget (on the calling thread, valid header) reports the effective set -/
   capget_spec : ∀ s, (H.step s .capget).1 = .caps (H.creds s).effFsetid
+  /-- lookups with O_PATH, stat, readlink, read, non-truncating (re-)opens, lseek, fsync, F_SETFL,
+      xattr reads and credential switches do not change any file-system object -/
+  view_readOnly : ∀ s c, c.readOnly = true → ∀ o, H.view (H.step s c).2 o = H.view s o
 
 namespace Prog
 
